@@ -187,7 +187,7 @@ def unsplit_netloc(username, password, hostname, port):
 
     if auth:
         hostname = auth + "@" + hostname
-    if port:
+    if port is not None:
         hostname += ":" + str(port)
 
     return hostname
